@@ -286,11 +286,34 @@ fn get_mut<'a>(v: &'a mut Value, path: &[usize]) -> Option<&'a mut Value> {
     Some(c)
 }
 
-const N_KINDS: usize = 16;
+const N_KINDS: usize = 19;
 
 /// Applies structural mutation `kind` at `path`; None if not applicable.
 fn mutate(doc: &Value, path: &[usize], kind: usize) -> Option<Value> {
     let mut d = doc.clone();
+    if kind >= 16 {
+        // element moved / copied to the end or the front of its parent array
+        let (last, parent) = path.split_last()?;
+        let p = get_mut(&mut d, parent)?.as_array_mut()?;
+        if p.len() < 2 {
+            return None;
+        }
+        match kind {
+            16 => {
+                let x = p.remove(*last);
+                p.push(x);
+            }
+            17 => {
+                let x = p[*last].clone();
+                p.push(x);
+            }
+            _ => {
+                let x = p.remove(*last);
+                p.insert(0, x);
+            }
+        }
+        return Some(d);
+    }
     if kind <= 2 {
         // operations on the parent array
         let (last, parent) = path.split_last()?;
@@ -431,8 +454,20 @@ pub fn run<F: Flav>(rep: &mut Report, random_docs: u64, shard: u64, nshards: u64
         }
     }
     let mut all_valid: Vec<Value> = vec![];
+    // seeds: what the serialiser writes, and the same graphs written directly (edges in connect order and
+    // orientation, which the serialiser of the undirected flavours never produces)
+    let mut seeds: Vec<Value> = vec![];
     for (prios, edges) in seed_docs::<F>() {
-        let doc = valid_doc::<F>(&prios, &edges);
+        seeds.push(valid_doc::<F>(&prios, &edges));
+        let direct = json!([
+            prios.iter().enumerate().map(|(k, p)| json!([k, p])).collect::<Vec<_>>(),
+            edges.iter().enumerate().map(|(i, (a, b))| json!([a, b, [i + 1, (i as i32 * 7) % 5]])).collect::<Vec<_>>()
+        ]);
+        if !seeds.contains(&direct) {
+            seeds.push(direct);
+        }
+    }
+    for doc in seeds {
         all_valid.push(doc.clone());
         let text = serde_json::to_string(&doc).unwrap();
         let cb = serde_cbor::to_vec(&json_to_cbor(&doc)).unwrap();
@@ -467,8 +502,8 @@ pub fn run<F: Flav>(rep: &mut Report, random_docs: u64, shard: u64, nshards: u64
                     if paths.len() <= 14 {
                         let mut p2s = vec![];
                         all_paths(&m, &mut vec![], &mut p2s);
-                        for p2 in p2s.iter().step_by(3) {
-                            let k2 = (kind * 7 + p2.len()) % N_KINDS;
+                        for p2 in p2s.iter().step_by(2) {
+                            let k2 = (kind * 7 + p2.len() * 5 + p2.last().copied().unwrap_or(0)) % N_KINDS;
                             if let Some(m2) = mutate(&m, p2, k2) {
                                 rep.count("double_mutations");
                                 let t2 = serde_json::to_string(&m2).unwrap();
@@ -493,6 +528,27 @@ pub fn run<F: Flav>(rep: &mut Report, random_docs: u64, shard: u64, nshards: u64
                 rep.count("truncations");
                 rep.distinct(fnv_str(&format!("{}|tc|{}|{}", F::NAME, text, cut)));
                 judge_doc::<F>(&cb[..cut], "cbor", "truncation", rep);
+            }
+        }
+        // CBOR length-header inflation: every small array / map / string header claims a huge count
+        for pos in 0..cb.len() {
+            let b = cb[pos];
+            let major = b >> 5;
+            if !(2..=5).contains(&major) || (b & 0x1f) > 0x18 {
+                continue;
+            }
+            for (ai, extra) in [(0x1bu8, vec![0xffu8; 8]), (0x1b, vec![0, 0, 0, 1, 0, 0, 0, 0]), (0x1a, vec![0xff; 4]), (0x19, vec![0xff, 0xff]), (0x1a, vec![0, 0x10, 0, 0])] {
+                if !mine(&mut idx) {
+                    continue;
+                }
+                let mut m: Vec<u8> = cb[..pos].to_vec();
+                m.push((major << 5) | ai);
+                m.extend(extra);
+                let skip = if (b & 0x1f) == 0x18 { 2 } else { 1 };
+                m.extend_from_slice(&cb[pos + skip.min(cb.len() - pos)..]);
+                rep.count("cbor_length_inflations");
+                rep.distinct(fnv(&m) ^ fnv_str(F::NAME));
+                judge_doc::<F>(&m, "cbor", "length header inflated", rep);
             }
         }
     }
